@@ -203,7 +203,7 @@ def run(ctx):
     # and conversions cannot commute if a hop's result depends on what the process converted before
     from . import c02, c10
 
-    c02._optional(ctx, index)
-    c02._falsy(ctx, index)
-    c10._memoised(ctx)
+    ctx.section(c02._optional, ctx, index)
+    ctx.section(c02._falsy, ctx, index)
+    ctx.section(c10._memoised, ctx)
 
